@@ -142,6 +142,13 @@ def familyGroups (C : Calc) (sortTs : List BRow → List BRow) : List BRow → L
     if rest.all (inFamilyOf C a) then [(C.famTime a.row.ts, a :: rest)]
     else (runs (inFamilyOf C) (sortTs (a :: rest))).map (fun g => (C.famTime g.1.row.ts, g.1 :: g.2))
 
+/-- the slow path of the family iterator alone: always `sort.Sort(itr.rows)`, always the scan of
+HasNextFamily — what `familyGroups` is compared with (`Props.C16.family_fast_path_equiv_slow_path`) -/
+def familyGroupsSlow (C : Calc) (sortTs : List BRow → List BRow) (l : List BRow) : List (Int × List BRow) :=
+  match l with
+  | [] => []
+  | _ => (runs (inFamilyOf C) (sortTs l)).map (fun g => (C.famTime g.1.row.ts, g.1 :: g.2))
+
 structure Group where
   shard : Nat
   famTime : Int
